@@ -128,12 +128,15 @@ var mLinesTruncated = Mutant{"RestoreFile truncates and refills the line table i
 var mSpacingOr = Mutant{"link ORs the spacing into the table", fDF, "\t\t\t\t\tf.before[nodeBefore] = spaceType\n", "\t\t\t\t\tf.before[nodeBefore] |= spaceType\n"}
 var mErrCheckWeakened = Mutant{"Load returns DecorateFile's error only under an extra condition", "decorator/load.go", "\t\t\t\tfile, err := p.Decorator.DecorateFile(f)\n\t\t\t\tif err != nil {", "\t\t\t\tfile, err := p.Decorator.DecorateFile(f)\n\t\t\t\tif err != nil && len(goFiles) > 1 {"}
 
+var mGroupPerComment = Mutant{"applyDecorations makes a comment group of every comment", fR, "} else if group != nil && breaksSinceComment <= 1 {\n\t\t\t\tgroup.List = append(group.List, &ast.Comment{Slash: r.cursor, Text: d})\n\t\t\t} else {", "} else {"}
+var mRawLitCommentField = Mutant{"a comment behind a multi-line raw string goes to the Comment field", fR, " && r.cursor != r.rawLiteralEnd {", " {"}
+
 // SelfTestMutants lists, per property, the mutants its check must catch.
 var SelfTestMutants = map[string][]Mutant{
-	"C01": {mTokenLen, mDropTok, mElseGuard, mFragNoChild, mNoParseComments, mFileScope, mDecKey, mCrossFile, mAvoidGroup, mEndAtPos, mInnerAtToken, mAttachedStops, mAdjustedLine, mTextLen, mCommentEnd, mLineAtNodeEnd, mHangOnlyEmpty, mHangOneLevel, mLineCommentAtEnd},
+	"C01": {mTokenLen, mDropTok, mElseGuard, mFragNoChild, mNoParseComments, mFileScope, mDecKey, mCrossFile, mAvoidGroup, mEndAtPos, mInnerAtToken, mAttachedStops, mAdjustedLine, mTextLen, mCommentEnd, mLineAtNodeEnd, mHangOnlyEmpty, mHangOneLevel, mLineCommentAtEnd, mRawLitCommentField},
 	"C02": {mDecKey, mCloneDropDec, mSpaceLast, mCondDec, mCrossFile, mEndAtPos, mAttachedStops, mHangOnlyEmpty},
-	"C03": {mDropTok, mDropChildDeco, mFragNoChild, mElseGuard, mCrossFile, mAvoidGroup, mAdjustedLine, mTextLen, mCommentEnd, mLineAtNodeEnd, mSpacingOverwritten, mSpacingOr},
-	"C04": {mSwapDecs, mEndFlag, mCondDec},
+	"C03": {mDropTok, mDropChildDeco, mFragNoChild, mElseGuard, mCrossFile, mAvoidGroup, mAdjustedLine, mTextLen, mCommentEnd, mLineAtNodeEnd, mSpacingOverwritten, mSpacingOr, mGroupPerComment},
+	"C04": {mSwapDecs, mEndFlag, mCondDec, mRawLitCommentField},
 	"C05": {mSpaceNoFresh, mSpaceEmpty3, mSpaceLast, mNoAdvanceNL, mLineAtNodeEnd, mLineCommentAtEnd},
 	"C06": {mCloneAlias, mCloneDropDec, mCloneShareDec, mDupFlag, mDeleteReg, mClonePath},
 	"C07": {mNoSort, mIdentNoPeriod, mResolveAll, mCgoNamed, mCgoEmptyName, mParensAlwaysDropped, mAskResolverForC, mVendorRawScan, mVendorRawIdent},
